@@ -96,6 +96,8 @@ type name struct {
 	IslandNumber   uint64
 	hashPathMu     sync.Mutex
 	folderNumberMu sync.Mutex
+	// island count the memoised IslandNumber was computed for
+	islandNumberOf uint64
 }
 
 // New creates a new empty Name instance.
@@ -182,13 +184,14 @@ func (n *name) GetIslandID(allIslands uint64) uint64 {
 	n.folderNumberMu.Lock()
 	defer n.folderNumberMu.Unlock()
 
-	if n.IslandNumber != 0 {
+	if n.IslandNumber != 0 && n.islandNumberOf == allIslands {
 		return n.IslandNumber
 	}
 
 	hash := xxhash.Sum64([]byte(n.SanctuaryID + n.RealmName + n.SwampName))
 
 	n.IslandNumber = hash%allIslands + 1
+	n.islandNumberOf = allIslands
 
 	return n.IslandNumber
 
